@@ -930,7 +930,7 @@ impl Prop for C20 {
         if case.read_tz != 0 {
             // the reader sits in another time zone (chrono looks at TZ again once its cache is a second old)
             std::env::set_var("TZ", READ_ZONES[case.read_tz as usize % READ_ZONES.len()]);
-            x.jump_clock(2);
+            x.jump_clock(1000);
             x.count("probe.read_in_another_time_zone");
         }
         let name = case.name.clone();
